@@ -20,7 +20,7 @@ func checkC06(c *Ctx) {
 	c.Decided = "execution order = commit order: execute events are produced only by Committer.commitInner, for the commands of the very block whose commit event precedes them, after the parent was committed; " +
 		"a command changes the application state (digest, counter, per-client sequence number) only when it is not a duplicate by (client id, sequence number), with the comparison polarity and the recorded key/value checked; " +
 		"a success outcome is sent only from Exec and only after the state update; outcomes are delivered only by completeCommand, which removes the waiter under the lock (at most one outcome per waiter); " +
-		"lock discipline of the client server; the execute/abort handlers are wired to Exec/Abort; commands already in the chain are marked as proposed before a new batch is taken."
+		"lock discipline of the client server; the execute/abort handlers are wired to Exec/Abort; commands already in the chain are marked as proposed before a new batch is taken. A command received from a client is handed to the command cache once its waiter is registered; every acquisition of the client-IO mutex is released on every path."
 	c.NotDec = "cross-replica prefix relation of the executed sequences (follows from C01, which is not decided for all schedules); abort-versus-execute interleavings under forks."
 	c.Expect("C06.1", 2)
 	c.Expect("C06.2", 4)
